@@ -211,7 +211,7 @@ def _run(R):
     R.require("rh-format", "round-trip", "acceptance")
     R.assumptions = ["'parses as a number' = accepted by Python's float() (the model calls float() itself)",
                      "the computed base score is taken from the library (its correctness is C01-C03's subject)"]
-    n = R.pick(60, 1200)
+    n = R.pick(60, 2500)
     for ver in T.VERSIONS:
         R.pmap("shard", [(ver, i, n, R.seed) for i in range(16)])
     for ver in T.VERSIONS:
